@@ -527,4 +527,148 @@ theorem imposeMean_eq_map (m : K) (l : List K) :
 
 end affine
 
+/-! ### synchronized -/
+
+section sync
+variable {R : Type} [Mul R]
+
+/-- the index a mask value reads -/
+def Track.src : Track R → Int
+  | .idx j => j
+  | .scaled j0 _ => j0
+
+/-- the value one mask entry assigns, read from `x` (`none`: the entry is skipped) -/
+def syncVal (isArray : Bool) (x : List R) : Track R → Option R
+  | .idx j => getPy x j
+  | .scaled j0 c => if isArray = true then none else (getPy x j0).map (c * ·)
+
+/-- one iteration of the loop of `synchronized` -/
+def syncStep (isArray : Bool) (xp : List R) (e : Int × Track R) : List R :=
+  match syncVal isArray xp e.2 with
+  | some v => setPy xp e.1 v
+  | none => xp
+
+theorem synchronized_eq_foldl (isArray : Bool) (mask : List (Int × Track R)) (x : List R) :
+    synchronized isArray mask x = mask.foldl (syncStep isArray) x := by
+  unfold synchronized
+  congr 1
+  funext xp e
+  unfold syncStep syncVal
+  cases e.2 with
+  | idx j => simp only; cases getPy xp j <;> rfl
+  | scaled j0 c =>
+    simp only
+    by_cases h : isArray = true
+    · simp [h]
+    · simp only [h, if_false]
+      cases getPy xp j0 <;> rfl
+
+theorem syncStep_length (isArray : Bool) (xp : List R) (e : Int × Track R) :
+    (syncStep isArray xp e).length = xp.length := by
+  unfold syncStep; split
+  · exact setPy_length _ _ _
+  · rfl
+
+theorem foldl_syncStep_length (isArray : Bool) (mask : List (Int × Track R)) (xp : List R) :
+    (mask.foldl (syncStep isArray) xp).length = xp.length := by
+  induction mask generalizing xp with
+  | nil => rfl
+  | cons e rest ih => simp only [List.foldl_cons]; rw [ih, syncStep_length]
+
+theorem syncStep_getElem?_other (isArray : Bool) (xp : List R) (e : Int × Track R) (k : Nat)
+    (h : wrapIdx xp.length e.1 ≠ some k) : (syncStep isArray xp e)[k]? = xp[k]? := by
+  unfold syncStep; split
+  · rw [setPy_getElem?, if_neg h]
+  · rfl
+
+/-- an entry no key addresses is never written -/
+theorem foldl_syncStep_frame (isArray : Bool) (mask : List (Int × Track R)) (xp : List R) (k : Nat)
+    (h : ∀ e ∈ mask, wrapIdx xp.length e.1 ≠ some k) : (mask.foldl (syncStep isArray) xp)[k]? = xp[k]? := by
+  induction mask generalizing xp with
+  | nil => rfl
+  | cons e rest ih =>
+    simp only [List.foldl_cons]
+    rw [ih _ (fun e' he' => by rw [syncStep_length]; exact h e' (List.mem_cons_of_mem _ he'))]
+    exact syncStep_getElem?_other isArray xp e k (h e List.mem_cons_self)
+
+theorem getPy_congr (x y : List R) (i : Int) (hl : y.length = x.length)
+    (h : ∀ k, wrapIdx x.length i = some k → y[k]? = x[k]?) : getPy y i = getPy x i := by
+  unfold getPy
+  rw [hl]
+  cases hw : wrapIdx x.length i with
+  | none => rfl
+  | some k => simp only [Option.bind_some]; exact h k hw
+
+theorem syncVal_congr (isArray : Bool) (x y : List R) (t : Track R) (h : getPy y t.src = getPy x t.src) :
+    syncVal isArray y t = syncVal isArray x t := by
+  cases t with
+  | idx j => simpa [syncVal, Track.src] using h
+  | scaled j0 c =>
+    simp only [syncVal, Track.src] at h ⊢
+    rw [h]
+
+/-- the last value the mask assigns to slot `k`, every value read from the ORIGINAL `x` -/
+def lastSync (isArray : Bool) (x : List R) : List (Int × Track R) → Nat → Option R
+  | [], _ => none
+  | e :: rest, k =>
+    match lastSync isArray x rest k with
+    | some v => some v
+    | none => if wrapIdx x.length e.1 = some k then syncVal isArray x e.2 else none
+
+/-- "keys and values should be different": no tracked index addresses a slot some key addresses -/
+def SrcNotKey (n : Nat) (mask : List (Int × Track R)) : Prop :=
+  ∀ e ∈ mask, ∀ e' ∈ mask, ∀ w, wrapIdx n e.1 = some w → wrapIdx n e'.2.src ≠ some w
+
+theorem foldl_syncStep_spec (isArray : Bool) (x : List R) (mask : List (Int × Track R)) (xp : List R)
+    (hl : xp.length = x.length)
+    (hsrc : ∀ e' ∈ mask, getPy xp e'.2.src = getPy x e'.2.src)
+    (hdis : ∀ e ∈ mask, ∀ e' ∈ mask, ∀ w, wrapIdx x.length e.1 = some w → wrapIdx x.length e'.2.src ≠ some w)
+    (k : Nat) :
+    (mask.foldl (syncStep isArray) xp)[k]? = (xp[k]?).map (fun a => (lastSync isArray x mask k).getD a) := by
+  induction mask generalizing xp with
+  | nil => simp [lastSync]
+  | cons e rest ih =>
+    simp only [List.foldl_cons]
+    have hl' : (syncStep isArray xp e).length = x.length := by rw [syncStep_length, hl]
+    have hsrc' : ∀ e' ∈ rest, getPy (syncStep isArray xp e) e'.2.src = getPy x e'.2.src := by
+      intro e' he'
+      rw [← hsrc e' (List.mem_cons_of_mem _ he')]
+      apply getPy_congr _ _ _ (syncStep_length isArray xp e)
+      intro w hw
+      apply syncStep_getElem?_other
+      intro hkey
+      rw [hl] at hkey hw
+      exact hdis e List.mem_cons_self e' (List.mem_cons_of_mem _ he') w hkey hw
+    rw [ih _ hl' hsrc' (fun a ha b hb => hdis a (List.mem_cons_of_mem _ ha) b (List.mem_cons_of_mem _ hb))]
+    simp only [lastSync]
+    have hv : syncVal isArray xp e.2 = syncVal isArray x e.2 := syncVal_congr isArray x xp e.2 (hsrc e List.mem_cons_self)
+    unfold syncStep
+    rw [hv]
+    cases hlast : lastSync isArray x rest k with
+    | some v =>
+      cases hs : syncVal isArray x e.2 with
+      | none => rfl
+      | some u =>
+        simp only
+        rw [setPy_getElem?]
+        split
+        · rename_i hw
+          have := wrapIdx_lt hw
+          simp [List.getElem?_eq_getElem this]
+        · rfl
+    | none =>
+      cases hs : syncVal isArray x e.2 with
+      | none => simp
+      | some u =>
+        simp only
+        rw [setPy_getElem?, hl]
+        split
+        · rename_i hw
+          have := wrapIdx_lt hw
+          rw [← hl] at this
+          simp [List.getElem?_eq_getElem this]
+        · simp
+
+end sync
+
 end MysticVerif.Trans
